@@ -76,14 +76,16 @@ def run(ctx):
     th = []
     # --- generators (M + G) ------------------------------------------------------------------------
     if quick:
-        gens = [("CStructGen_quick.cfg", "flat", None, None, 5),
-                ("CStructGenNest_quick.cfg", "nest", None, None, 5),
+        gens = [("CStructGen_quick.cfg", "flat", None, None, 4),
+                ("CStructGenNest_quick.cfg", "nest", None, None, 4),
                 ("CStructGenVar_quick.cfg", "var", None, None, 3),
-                ("CStructSim.cfg", "sim", "num=30", 60, 6)]
+                ("CStructGenUnion_quick.cfg", "union", None, None, 1),
+                ("CStructSim.cfg", "sim", "num=40", 60, 4)]
     else:
         gens = [("CStructGen_quick.cfg", "flat", None, None, 4),
                 ("CStructGenNest_quick.cfg", "nest", None, None, 4),
                 ("CStructGenVar_quick.cfg", "var", None, None, 2),
+                ("CStructGenUnion_quick.cfg", "union", None, None, 1),
                 ("CStructGen_thorough.cfg", "flat4", None, None, 8),
                 ("CStructGenNest_thorough.cfg", "nest3", None, None, 8),
                 ("CStructGenNest2_thorough.cfg", "nest2", None, None, 8),
@@ -98,8 +100,8 @@ def run(ctx):
     total_rows = len(rows)
     if quick:
         rng = ctx.rng
-        rows = [r for r in rows if rng.random() < 0.25]
-    nsh = 4 if quick else 8
+        rows = [r for r in rows if rng.random() < 0.2]
+    nsh = 3 if quick else 8
     for i, sh in enumerate(tlc.shard(rows, nsh)):
         t = threading.Thread(target=_tref, args=(sh, i, wd, out))
         t.start()
